@@ -29,6 +29,20 @@ def _shard(vh, behs, i, d):
     return o, [l for l in open(tr).read().splitlines() if l.strip()]
 
 
+def whole_sessions(tl, limit):
+    """a prefix of the recorded lines that ends at a session boundary"""
+    out, cur = [], []
+    for l in tl + ['{"reset-sentinel":1}']:
+        if '"reset' in l:
+            if len(out) + len(cur) > limit:
+                break
+            out += cur
+            cur = []
+        if "sentinel" not in l:
+            cur.append(l)
+    return out
+
+
 def run(t):
     run = Run("X02", "model_checking", t)
     vh = build_vh()
@@ -63,7 +77,7 @@ def run(t):
             for k, v in o["counters"].items():
                 if k.startswith("open_"):
                     opens[k] = opens.get(k, 0) + v
-            lines += tl[:700]
+            lines += whole_sessions(tl, 700)
         if len(opens) < 8 and not run.violations:
             raise NoVerdict(f"outcome coverage {opens}")
         run.cov["open_outcomes"] = opens
